@@ -390,6 +390,43 @@ class Interp:
         self._local_assign_cache[f] = out
         return out
 
+    MUTATORS = ("append", "extend", "insert", "pop", "remove", "sort", "reverse", "clear", "update", "setdefault", "popitem", "add", "discard", "__setitem__", "__delitem__")
+
+    def mutated_locals(self, f: FuncInfo) -> dict[str, ast.AST]:
+        """Locals of f whose *content* is modified in place after being bound (`x[i] = v`, `del x[i]`, `x += ..`,
+        `x.append(..)`): name -> first such construct.  The expression that built the container no longer describes
+        its value.  (`x.attr = v` is not counted: a local that aliases a shared object still denotes that object.)"""
+        cache = self.__dict__.setdefault("_mutated_cache", {})
+        if f in cache:
+            return cache[f]
+        out: dict[str, ast.AST] = {}
+
+        def root(e):
+            while isinstance(e, (ast.Subscript, ast.Attribute)):
+                e = e.value
+            return e.id if isinstance(e, ast.Name) else None
+
+        for n in self.own_nodes(f):
+            tg: list = []
+            if isinstance(n, ast.Assign):
+                tg = [t for t in n.targets if isinstance(t, ast.Subscript)]
+                for t in n.targets:
+                    if isinstance(t, (ast.Tuple, ast.List)):
+                        tg += [x for x in t.elts if isinstance(x, ast.Subscript)]
+            elif isinstance(n, (ast.AugAssign, ast.AnnAssign)) and isinstance(n.target, ast.Subscript):
+                tg = [n.target]
+            elif isinstance(n, ast.AugAssign) and isinstance(n.target, ast.Name):
+                out.setdefault(n.target.id, n)
+            elif isinstance(n, ast.Delete):
+                tg = [t for t in n.targets if isinstance(t, ast.Subscript)]
+            elif isinstance(n, ast.Call) and isinstance(n.func, ast.Attribute) and n.func.attr in self.MUTATORS and isinstance(n.func.value, ast.Name):
+                out.setdefault(n.func.value.id, n)
+            for t in tg:
+                if isinstance(t.value, ast.Name):  # direct element / attribute of the local itself
+                    out.setdefault(t.value.id, n)
+        cache[f] = out
+        return out
+
     def tuple_assigns(self, f: FuncInfo) -> dict[str, list[tuple[ast.expr, int]]]:
         """name -> [(value expr, index)] for names bound by `a, b = <value>` in f's own body."""
         cache = self.__dict__.setdefault("_tuple_assign_cache", {})
